@@ -1,6 +1,11 @@
 package main
 
 import (
+	"github.com/WICG/webpackage/go/internal/signingalgorithm"
+	"crypto/sha512"
+	"crypto/elliptic"
+	"crypto/ecdsa"
+	"bytes"
 	"crypto/sha256"
 	"crypto/x509"
 	"fmt"
@@ -94,6 +99,37 @@ func init() {
 		ns, err := signer.UpdateSignatures(b.Signatures)
 		if err != nil {
 			return "err update"
+		}
+		// the same Signer asked again (nothing added in between) must vouch for the same subset, and that second signature must
+		// verify under the signer's certificate over the message the library defines for it
+		ns2, err := signer.UpdateSignatures(nil)
+		if err != nil {
+			return "err second update"
+		}
+		v1, v2 := ns.VouchedSubsets[len(ns.VouchedSubsets)-1], ns2.VouchedSubsets[len(ns2.VouchedSubsets)-1]
+		if !bytes.Equal(v1.Signed, v2.Signed) {
+			return "err second-signing-differs"
+		}
+		ver, err := signingalgorithm.VerifierForPublicKey(chain[0].Cert.PublicKey)
+		if err == nil {
+			if ok, _ := ver.Verify(signature.VerifGenerateSignedMessage(v2.Signed, b.Version), v2.Sig); !ok {
+				// independent check with the stdlib (the library's own verifier may share a defect with its signer)
+				return "err second-signature-invalid"
+			}
+			if pk, isEC := chain[0].Cert.PublicKey.(*ecdsa.PublicKey); isEC {
+				msg := signature.VerifGenerateSignedMessage(v2.Signed, b.Version)
+				var digest []byte
+				if pk.Curve == elliptic.P384() {
+					d := sha512.Sum384(msg)
+					digest = d[:]
+				} else {
+					d := sha256.Sum256(msg)
+					digest = d[:]
+				}
+				if !ecdsa.VerifyASN1(pk, digest, v2.Sig) {
+					return "err second-signature-invalid(stdlib)"
+				}
+			}
 		}
 		b.Signatures = ns
 		return "ok " + showBundle(b)
